@@ -1649,12 +1649,16 @@ def mkdofpv(uset, nasset, dof, *, strict=True, grids_only=True):
     _dof = dof[:, 0] * 10 + dof[:, 1]
 
     i = np.argsort(uset_set)
-    pvi = np.searchsorted(uset_set, _dof, sorter=i)
-    # since searchsorted can return length as index:
-    pvi[pvi == i.size] -= 1
-    pv = i[pvi]
-
-    chk = uset_set[pv] != _dof
+    if i.size == 0:
+        # empty set: no dof can be found
+        pv = np.zeros(len(_dof), np.int64)
+        chk = np.ones(len(_dof), bool)
+    else:
+        pvi = np.searchsorted(uset_set, _dof, sorter=i)
+        # since searchsorted can return length as index:
+        pvi[pvi == i.size] -= 1
+        pv = i[pvi]
+        chk = uset_set[pv] != _dof
     if chk.any():
         if strict:
             msg = (
